@@ -42,9 +42,10 @@ def nationalB (cc : String) (b : Str) : Option Bool :=
 /-- `spec.*` operations. -/
 def dispatch (X : Ctx) (op : String) (args : List String) : Option String :=
   match op, args with
-  | "spec.iban_valid", [c] => do
-    let c ← parseStr c
-    pure ("ok " ++ showBool (isoValid X.T c))
+  | "spec.iban_valid", [t] => do
+    -- the argument is the raw text; the Spec is about its cleaned form
+    let t ← parseStr t
+    pure ("ok " ++ showBool (isoValid X.T (clean X.U t)))
   | "spec.check_digits", [cc, b] => do
     let cc ← parseStr cc
     let b ← parseStr b
@@ -61,19 +62,19 @@ def dispatch (X : Ctx) (op : String) (args : List String) : Option String :=
     match nationalB (String.ofList (cc.map Char.ofNat)) b with
     | some v => pure ("ok " ++ showBool v)
     | none => pure "none"
-  | "spec.bic_valid", [strict, c] => do
+  | "spec.bic_valid", [strict, t] => do
     let strict ← parseBool strict
-    let c ← parseStr c
-    pure ("ok " ++ showBool (iso9362 X.B.iso strict c))
-  | "spec.iban_defect", [k, c] => do
-    let c ← parseStr c
-    match ibanDefectB X.T k c with
+    let t ← parseStr t
+    pure ("ok " ++ showBool (iso9362 X.B.iso strict (clean X.U t)))
+  | "spec.iban_defect", [k, t] => do
+    let t ← parseStr t
+    match ibanDefectB X.T k (clean X.U t) with
     | some b => pure ("ok " ++ showBool b)
     | none => pure "ok F"
-  | "spec.bic_defect", [k, strict, c] => do
+  | "spec.bic_defect", [k, strict, t] => do
     let strict ← parseBool strict
-    let c ← parseStr c
-    match bicDefectB X.B.iso k strict c with
+    let t ← parseStr t
+    match bicDefectB X.B.iso k strict (clean X.U t) with
     | some b => pure ("ok " ++ showBool b)
     | none => pure "ok F"
   | _, _ => none
